@@ -291,7 +291,10 @@ func c06Run(i int64, tier string, seed uint64, r *fw.Rec) {
 // Function values returned by one evaluation are registered (RegisterVars)
 // under a different name in each goroutine's own expressions; all goroutines
 // call the same function objects at the same time.
-var c06FnSources = []string{`function($x)<n:n>{$x * 2}`, `function($x){$x & "!"}`, `$substringBefore(?, "-")`, `($string ~> $uppercase)`, `/[a-z]+/`, `|b|{"t":1}|`, `$pad(?, 10)`}
+var c06FnSources = []string{`function($x)<n:n>{$x * 2}`, `function($x){$x & "!"}`, `$substringBefore(?, "-")`, `($string ~> $uppercase)`, `/[a-z]+/`, `|b|{"t":1}|`, `$pad(?, 10)`,
+	// stored expressions that bind a variable: the binding belongs to the call
+	`($c := 0; $append(?, $c := $c + 1))`, `($c := 0; |$|{"n": $c := $c + 1}|)`, `($c := 0; |($c := $c + 1; b)|{"t": $c}, [($c := $c + 1; "c")]|)`,
+	`($c := 0; function($x){($c := $c + 1; [$x, $c])})`}
 
 func c06SharedFunctions(i int64, rd c06Round, r *fw.Rec) {
 	vals := make([]interface{}, len(c06FnSources))
